@@ -52,6 +52,10 @@ def emergency_state(msg: str) -> int:
     :param msg: 28 bytes hexadecimal message string
     :return: emergency state
     """
+    if common.typecode(msg) != 28:
+        raise RuntimeError(
+            "%s: Not an airborne status message, expecting TC=28" % msg
+        )
 
     mb = common.hex2bin(msg)[32:]
     subtype = common.bin2int(mb[5:8])
